@@ -109,7 +109,19 @@ func etProjects(c *core.Ctx, n, years int) []*gen.Project {
 				}
 			}
 		}
-		p.Arms = []string{fmt.Sprintf("etpot=%d cold=%v polar=%v lat=%d norad=%v", p.Cfg.ETpot, o.ColdWinters, o.PolarLat, p.Cfg.Lat100, o.NoRad)}
+		waterlogged := i%10 == 8
+		if waterlogged {
+			// a heavy soil (field capacity next to the pore volume) over a water table at 1 dm: the top 30 cm stay without
+			// air filled pores for days under a growing crop (the air shortage reduction of transpiration goes to zero)
+			for k := range p.Soil.Horizons {
+				fc := 46 + r.Intn(10)
+				p.Soil.Horizons[k].FC, p.Soil.Horizons[k].WP, p.Soil.Horizons[k].PV = fc, 28+r.Intn(6), fc+1
+				p.Soil.Horizons[k].StonePct = 0
+			}
+			p.Soil.GWDm = 1
+			p.Cfg.GWFrom = "soilfile"
+		}
+		p.Arms = []string{fmt.Sprintf("etpot=%d cold=%v polar=%v lat=%d norad=%v waterlogged=%v", p.Cfg.ETpot, o.ColdWinters, o.PolarLat, p.Cfg.Lat100, o.NoRad, waterlogged)}
 		ps = append(ps, p)
 	}
 	return ps
@@ -185,6 +197,9 @@ func tempProjects(c *core.Ctx, n, years int) []*gen.Project {
 		if i%4 == 3 {
 			o.PTF, o.Peat = 1+(i/4)%4, false
 		}
+		if (i%6 == 1 || i%6 == 3) && !o.LowBulk && o.PTF == 0 && i%5 != 2 {
+			o.MinLayers, o.GWFrom = 8, []string{"soilfile"} // the dense, wet member of a session pair (below): a real profile
+		}
 		p := gen.Random(r, fmt.Sprintf("t%d_%d", c.Seed, i), o)
 		p.Arms = append(p.Arms, fmt.Sprintf("ptf=%d bulkExplicit=%v lowBulk=%v", o.PTF, o.BulkExplicit, o.LowBulk))
 		if i%5 == 2 {
@@ -195,6 +210,30 @@ func tempProjects(c *core.Ctx, n, years int) []*gen.Project {
 				p.Soil.Horizons[k].Bulk100 = 0
 			}
 			p.Arms = append(p.Arms, "organic")
+		}
+		// sessions: project i (i%3 = 1) runs after a sibling of project i-1 in one session. The heat scheme depends on bulk
+		// density and wetness: the two runs of a session sit at opposite ends (loose and dry first, dense and wet second, or
+		// the other way round), so that nothing derived from the first profile fits the second
+		setBD := func(cl int) {
+			for k := range p.Soil.Horizons {
+				p.Soil.Horizons[k].BDClass, p.Soil.Horizons[k].Bulk100 = cl, 0
+			}
+		}
+		if !o.LowBulk && o.PTF == 0 && i%5 != 2 {
+			switch i % 6 {
+			case 0, 4:
+				setBD(1)
+				for k := range p.Soil.Horizons {
+					p.Soil.Horizons[k].Corg100 = 30 + r.Intn(60) // mineral: little humus
+				}
+				p.Arms = append(p.Arms, "session: loose")
+			case 1, 3:
+				setBD(5)
+				if p.Cfg.GWFrom == "soilfile" {
+					p.Soil.GWDm = 2 + r.Intn(4) // ... and wet: a water table high in the profile
+				}
+				p.Arms = append(p.Arms, "session: dense")
+			}
 		}
 		ps = append(ps, p)
 	}
